@@ -23,7 +23,9 @@ EXTENDS Naturals, FiniteSets, TLC
 
 CONSTANTS MaxId,     \* node ids 1..MaxId, 1 = entry node
           R,         \* degree bound
-          Slack      \* 0 = the code as pinned; 1 = back edges are added up to R + 1 (off by one)
+          Slack,     \* 0 = the code as pinned; 1 = back edges are added up to R + 1 (off by one)
+          SplitBack  \* FALSE = the code as pinned: room test and append under one lock; TRUE = the worker looks at the
+                     \* neighbour's edge count, lets go of the lock and appends later without looking again (seeded C10-I)
 
 Start == 1
 Ids == 1..MaxId
@@ -34,8 +36,9 @@ VARIABLES nodes,    \* ids with a stored vector
           phase,
           todoIns,  \* fresh ids waiting for a worker
           back,     \* inserting node -> neighbours that still have to receive the back edge
-          upd, del  \* updated / deleted ids of the running batch
-vars == <<nodes, edges, maxId, phase, todoIns, back, upd, del>>
+          upd, del, \* updated / deleted ids of the running batch
+          room      \* SplitBack: pairs <<a, b>> for which worker a has seen room at neighbour b and not yet appended
+vars == <<nodes, edges, maxId, phase, todoIns, back, upd, del, room>>
 
 Placed == DOMAIN edges
 Max(a, b) == IF a > b THEN a ELSE b
@@ -53,7 +56,7 @@ Prunes(a, c) == {s \in SUBSET (c \ {a}) : s # {} /\ Cardinality(s) <= R}
 
 Init ==
   /\ nodes = {Start} /\ edges = [n \in {Start} |-> {}] /\ maxId = 0
-  /\ phase = "idle" /\ todoIns = {} /\ back = <<>> /\ upd = {} /\ del = {}
+  /\ phase = "idle" /\ todoIns = {} /\ back = <<>> /\ upd = {} /\ del = {} /\ room = {}
 
 \* a batch: fresh ids, updated ids, deleted ids (pairwise disjoint; the shard
 \* never hands the entry node's id to a point)
@@ -64,7 +67,7 @@ Begin ==
         /\ ins \cup u \cup d # {}
         /\ todoIns' = ins /\ upd' = u /\ del' = d
   /\ phase' = "ins" /\ back' = <<>>
-  /\ UNCHANGED <<nodes, edges, maxId>>
+  /\ UNCHANGED <<nodes, edges, maxId, room>>
 
 \* insertSinglePoint, first half: vector stored, greedy search, robust prune, node placed
 InsPlace(a) ==
@@ -76,15 +79,30 @@ InsPlace(a) ==
               /\ back' = [n \in DOMAIN back \cup {a} |-> IF n = a THEN out ELSE back[n]]
   /\ nodes' = nodes \cup {a} /\ maxId' = Max(maxId, a)
   /\ todoIns' = todoIns \ {a}
-  /\ UNCHANGED <<phase, upd, del>>
+  /\ UNCHANGED <<phase, upd, del, room>>
 
 \* second half, one neighbour at a time under that neighbour's lock
 BackEdge(a, b) ==
-  /\ phase \in {"ins", "upd"} /\ a \in DOMAIN back /\ b \in back[a]
+  /\ phase \in {"ins", "upd"} /\ a \in DOMAIN back /\ b \in back[a] /\ <<a, b>> \notin room
+  /\ (SplitBack => Cardinality(edges[b]) + 1 > R + Slack)     \* (with SplitBack only the prune path stays atomic)
   /\ IF Cardinality(edges[b]) + 1 > R + Slack
      THEN \E s \in Prunes(b, edges[b] \cup {a}) : edges' = [edges EXCEPT ![b] = s]
      ELSE edges' = [edges EXCEPT ![b] = @ \cup {a}]
   /\ back' = [back EXCEPT ![a] = @ \ {b}]
+  /\ UNCHANGED <<nodes, maxId, phase, todoIns, upd, del, room>>
+
+\* SplitBack: the look at the neighbour's edge count ...
+BackPeek(a, b) ==
+  /\ SplitBack /\ phase \in {"ins", "upd"} /\ a \in DOMAIN back /\ b \in back[a] /\ <<a, b>> \notin room
+  /\ Cardinality(edges[b]) + 1 <= R + Slack
+  /\ room' = room \cup {<<a, b>>}
+  /\ UNCHANGED <<nodes, edges, maxId, phase, todoIns, back, upd, del>>
+\* ... and, later, the append without a second look
+BackAppend(a, b) ==
+  /\ <<a, b>> \in room
+  /\ edges' = [edges EXCEPT ![b] = @ \cup {a}]
+  /\ back' = [back EXCEPT ![a] = @ \ {b}]
+  /\ room' = room \ {<<a, b>>}
   /\ UNCHANGED <<nodes, maxId, phase, todoIns, upd, del>>
 
 Quiet == todoIns = {} /\ \A a \in DOMAIN back : back[a] = {}
@@ -93,8 +111,8 @@ InsDone ==
   /\ phase = "ins" /\ Quiet
   /\ phase' = (IF upd \cup del = {} THEN "idle" ELSE "scan") /\ back' = <<>>
   /\ (upd \cup del = {} => upd' = {} /\ del' = {})
-  /\ (upd \cup del # {} => UNCHANGED <<upd, del>>)
-  /\ UNCHANGED <<nodes, edges, maxId, todoIns>>
+  /\ (upd \cup del # {} => UNCHANGED <<upd, del, room>>)
+  /\ UNCHANGED <<nodes, edges, maxId, todoIns, room>>
 
 \* removeInboundEdges: EdgeScan, pruneDeleteNeighbour for every node with an edge into D, rescue
 \* candidates of node a: its surviving neighbours plus, one level deep, the
@@ -122,14 +140,14 @@ Scan ==
                            LET e == IF n \in toPrune THEN f[n] ELSE edges[n]
                            IN  IF n = Start THEN e \cup toSave ELSE e]
   /\ phase' = "del"
-  /\ UNCHANGED <<nodes, maxId, todoIns, back, upd, del>>
+  /\ UNCHANGED <<nodes, maxId, todoIns, back, upd, del, room>>
 
 Delete ==
   /\ phase = "del"
   /\ nodes' = nodes \ del
   /\ edges' = [n \in Placed \ del |-> edges[n]]
   /\ phase' = "upd" /\ del' = {}
-  /\ UNCHANGED <<maxId, todoIns, back, upd>>
+  /\ UNCHANGED <<maxId, todoIns, back, upd, room>>
 
 \* re-insertion of an updated point (single threaded: place, then its back edges, then the next)
 UpdPlace(a) ==
@@ -140,17 +158,17 @@ UpdPlace(a) ==
               /\ edges' = [edges EXCEPT ![a] = out]
               /\ back' = [n \in {a} |-> out]
   /\ upd' = upd \ {a}
-  /\ UNCHANGED <<nodes, maxId, phase, todoIns, del>>
+  /\ UNCHANGED <<nodes, maxId, phase, todoIns, del, room>>
 
 UpdDone ==
   /\ phase = "upd" /\ upd = {} /\ Quiet
   /\ phase' = "idle" /\ back' = <<>>
-  /\ UNCHANGED <<nodes, edges, maxId, todoIns, upd, del>>
+  /\ UNCHANGED <<nodes, edges, maxId, todoIns, upd, del, room>>
 
 Next ==
   \/ Begin \/ InsDone \/ Scan \/ Delete \/ UpdDone
   \/ \E a \in Ids : InsPlace(a) \/ UpdPlace(a)
-  \/ \E a, b \in Ids : BackEdge(a, b)
+  \/ \E a, b \in Ids : BackEdge(a, b) \/ BackPeek(a, b) \/ BackAppend(a, b)
 Spec == Init /\ [][Next]_vars
 
 ----------------------------------------------------------------------------
